@@ -3,6 +3,7 @@ import GormModel.Model.StmtCache
 open Lean
 namespace Gorm.Drv
 open Gorm.SC
+namespace HC14
 
 /-!
   `["sc.check", nV, nQ, threads, trace, final]` — trace inclusion of one forced schedule of the REAL cache in the model.
@@ -155,6 +156,8 @@ def replay (nQ : Nat) (steps : List Step) (states : List St) (started : List Nat
         ("moved", natJ moved.length)])
     else replay nQ rest keep started' labels (i + 1)
 
+end HC14
+open HC14 in
 def handleC14 (op : String) (args : Array Json) : Option Json := do
   match op with
   | "sc.check" =>
